@@ -37,7 +37,10 @@ DIALECTS = [("Ansi", sql.ANSI_SQL_DIALECT), ("Db2", sql.DB2_SQL_DIALECT), ("Tran
 DMAP = dict(DIALECTS)
 BOUNDS = sorted({0} | {s * (2 ** k) + d for k in (7, 8, 15, 16, 31, 32, 63) for s in (1, -1) for d in (-1, 0, 1)})
 NAMES = ["c1", "amount", "select", "Select", "USER", "date", "zone", "absolute", "comment", "name", "size", "level",
-         "writetext", "rowid", "after", "x_1", "Number", "add", "value", "a"]
+         "writetext", "rowid", "after", "x_1", "Number", "add", "value", "a",
+         # keywords that are not purely alphabetic, and near misses of them
+         "current_date", "CURRENT_DATE", "session_user", "bit_length", "identity_insert", "lc_ctype", "like2", "ub4", "size_t",
+         "timezone_hour", "round_half_up", "current_dat", "like3", "user_1"]
 COL = re.compile(r'^    (\S+) ([a-z0-9]+)(?:\((\d+)(?:, (\d+))?\))?( not null)?$')
 
 
